@@ -801,10 +801,14 @@ func (n NaturalLanguageValues) Equals(with NaturalLanguageValues) bool {
 		return false
 	}
 	for _, wv := range with {
+		found := false
 		for _, nv := range n {
 			if nv.Equals(wv) {
-				continue
+				found = true
+				break
 			}
+		}
+		if !found {
 			return false
 		}
 	}
